@@ -546,7 +546,7 @@ pub fn main(args: &[String]) {
                     }
                 }
                 if n > 8 && n <= 3000 {
-                    for retain in if per >= 60 { vec![true, false] } else { vec![true] } {
+                    for retain in [true, false] {
                         rep.evaluations += 1;
                         let skip = rng.below(7) as u32;
                         let r = Request { gids: (0..n).filter(|g| g % 7 != skip).collect(), cps: vec![], retain, notdef: true, no_hinting: false, overlaps: false };
